@@ -58,7 +58,44 @@ struct Inputs {
     blind: Bytes,
 }
 
+/// One run in 16: VOLUME.  Mass draws from the two public sources of blinding values on four
+/// threads at once; none may be zero and no two may be equal.  A birthday test: it notices a
+/// source whose values carry less than ~40 bits of entropy, or that returns a fixed value once
+/// in ~10^5 draws -- defects that no few-hundred-transcript history can see.
+fn volume(cx: &mut Cx) {
+    let (batches, factors) = if cx.thorough { (400_000usize, 2_000_000usize) } else { (150_000, 500_000) };
+    let nodes: Vec<NodeId> = (0..4).map(|i| cx.node(&format!("drawer{i}"))).collect();
+    cx.count("probe.volume_draws");
+    type Out = (Vec<[u8; 32]>, Vec<[u8; 32]>, u64, u64);
+    let steps: Vec<(NodeId, Box<dyn FnOnce() -> Out + Send>)> = nodes.iter().map(|&n| {
+        let f: Box<dyn FnOnce() -> Out + Send> = Box::new(move || {
+            use zkryptium::utils::util::bbsplus_utils::calculate_random_scalars;
+            let mut zero_a = 0u64; let mut zero_b = 0u64;
+            let a: Vec<[u8; 32]> = (0..batches / 4).map(|_| { let v = calculate_random_scalars(3); let b = v[0].to_be_bytes(); if v.iter().any(|x| x.to_be_bytes() == [0u8; 32]) { zero_a += 1; } b }).collect();
+            let b: Vec<[u8; 32]> = (0..factors / 4).map(|_| { let x = zkryptium::bbsplus::commitment::BlindFactor::random().to_bytes(); if x == [0u8; 32] { zero_b += 1; } x }).collect();
+            (a, b, zero_a, zero_b)
+        });
+        (n, f)
+    }).collect();
+    cx.burst(steps, "mass-draws", move |cx, outs| {
+        let mut all_a: Vec<[u8; 32]> = Vec::new(); let mut all_b: Vec<[u8; 32]> = Vec::new();
+        let (mut za, mut zb) = (0u64, 0u64);
+        for st in outs { match st.out { Ok((a, b, x, y)) => { all_a.extend(a); all_b.extend(b); za += x; zb += y; } Err(c) => cx.violation("C07", "volume/crash".into(), format!("{c:?}")) } }
+        cx.add("n.blinding_values_checked", (all_a.len() + all_b.len()) as u64);
+        cx.eval(&[b"volume", &(all_a.len() as u64).to_le_bytes(), &(all_b.len() as u64).to_le_bytes()], true);
+        if za > 0 { cx.violation("C07", "zero/calculate_random_scalars".into(), format!("{za} batches of random scalars contain a zero")); }
+        if zb > 0 { cx.violation("C07", "zero/BlindFactor::random".into(), format!("{zb} of {} random blind factors are zero", all_b.len())); }
+        for (name, mut v) in [("calculate_random_scalars", all_a), ("BlindFactor::random", all_b)] {
+            let n = v.len();
+            v.sort_unstable(); v.dedup();
+            if v.len() != n { cx.violation("C07", format!("repeat/volume/{name}"), format!("{} of {n} draws repeat an earlier one (a uniform 255-bit source repeats with probability < 2^-200)", n - v.len())); }
+        }
+    });
+    cx.run();
+}
+
 pub fn run_c07(cx: &mut Cx) {
+    if cx.run_index % 16 == 7 { return volume(cx); }
     cx.preemptions_left = cx.ch.choose("preemptions", 5) as u32;
     let suite = gen_suite(cx);
     // mostly small credentials; sometimes one generation needs more than 32 / 64 random scalars
